@@ -28,8 +28,8 @@ How the proof is organised (files `Proofs/Sql*.lean`):
 Hypotheses, all explicit and decidable where they concern the pipeline:
 `InFrag p`, `WF p` (C26: every reachable pipeline is `WF`), `Sql.SqlWF p` (further facts the builders establish),
 `Sql.MapsOK p` (rename / map_columns dictionaries have unique keys – true of every Python dict – **and** a rename
-does not read one source column twice: guard, `C08_rename_twice_necessary`), `Sql.EnvOK false env p` (the tables have
-at least the declared columns), `Sql.starLeakFree` (guard of `C08_sql_cols`, `C08_star_leak_necessary`),
+does not read one source column twice: guard, `C08_rename_twice_necessary`, known finding `C08-rename-source-twice`), `Sql.EnvOK false env p` (the tables have
+at least the declared columns),
 `OrdersNullFree` / `SqlScope` (NULL placement, finding D21; `C01_nullorder_necessary_*`), C18's `AggsOrderFree`,
 `WindowsTotal`.
 -/
@@ -37,7 +37,7 @@ namespace DAVerif
 open DAVerif.Sql
 
 /-- `to_near_sql_implementation_(using=None, temp_id_source=[0])` succeeded: the underlying state-monad run -/
-theorem toNearSql_ok {cfg : SqlCfg} {p : Ops} {q : Near} (h : toNearSql cfg p = .ok q) :
+theorem Sql.toNearSql_ok {cfg : SqlCfg} {p : Ops} {q : Near} (h : toNearSql cfg p = .ok q) :
     ∃ st', toNear cfg (6 * p.size + 6) p none 0 = .ok (q, st') := by
   unfold toNearSql at h
   cases hr : (toNear cfg (6 * p.size + 6) p none).run 0 with
@@ -49,32 +49,23 @@ theorem toNearSql_ok {cfg : SqlCfg} {p : Ops} {q : Near} (h : toNearSql cfg p = 
     subst h
     exact ⟨s, hr⟩
 
-theorem noStarLeak_of_guard {cfg : SqlCfg} {env : Env} {p : Ops} {q : Near} (h : toNearSql cfg p = .ok q)
-    (hg : starLeakFree cfg env p = true) : NoStarLeak env q p.cols := by
-  intro nm agg name ts sc sfx mg dp key t hq hl c hc
-  subst hq
-  simp only [starLeakFree, h, hl] at hg
-  exact subset_iff.mp hg c hc
-
 /-! ## 1. The translation is exact for the engine's row ordering (stage A) -/
 
 /-- **C01/C02, stage A.**  For every well-formed pipeline `p` of the fragment, every environment that has its
 tables with at least the declared columns, every interpretation `Θ` and both engines: if `to_sql` (no extend
-merges) produces the query `q`, then `q` evaluates; its result has every declared column; it has no other column
-when the guard `starLeakFree` holds; and its rows, restricted to the declared columns, are **exactly, in order,**
-the rows of the table the pipeline denotes when `order_rows` and window orders place NULL as the engine does
-(`semE ec`).  No hypothesis on the data, on `Θ`, on names or on the fuel. -/
+merges) produces the query `q`, then `q` evaluates; its result has exactly the declared column set; and its rows,
+restricted to the declared columns, are **exactly, in order,** the rows of the table the pipeline denotes when
+`order_rows` and window orders place NULL as the engine does (`semE ec`).  No hypothesis on the data, on `Θ`, on
+names or on the fuel. -/
 theorem C01_translation_engine_order (Θ : Interp) (ec : EngineCfg) (env : Env) (cfg : SqlCfg)
     (hm : cfg.merges = false) (p : Ops) (hf : InFrag p = true) (hwf : WF p) (hsq : SqlWF p) (hmp : MapsOK p)
     (he : EnvOK false env p) {q : Near} (h : toNearSql cfg p = .ok q) :
     ∃ T tp, semSql Θ ec env q = .ok T ∧ semE ec Θ SemCfg.ref env p = .ok tp ∧ tp.cols = p.cols ∧
-      (∀ c ∈ p.cols, c ∈ T.cols) ∧ (starLeakFree cfg env p = true → ∀ c ∈ T.cols, c ∈ p.cols) ∧
-      T.rows.map (fun r => r.select p.cols) = tp.rows := by
+      (∀ c, c ∈ T.cols ↔ c ∈ p.cols) ∧ T.rows.map (fun r => r.select p.cols) = tp.rows := by
   obtain ⟨st', hrun⟩ := toNearSql_ok h
   obtain ⟨tp, htp⟩ := semG_ok_frag (sqlRowLe ec) Θ SemCfg.ref env p hf false he
-  obtain ⟨T, h1, h2, h3, h4⟩ := stageA_root Θ ec env SemCfg.ref cfg hm p hf hwf hsq hmp he hrun htp
-  exact ⟨T, tp, h1, htp, (semG_cols_wf_frag _ Θ SemCfg.ref env p hf tp htp).1, h2,
-    fun hg => h3 (noStarLeak_of_guard h hg), h4⟩
+  obtain ⟨T, h1, h2, h4⟩ := stageA_root Θ ec env SemCfg.ref cfg hm p hf hwf hsq hmp he hrun htp
+  exact ⟨T, tp, h1, htp, (semG_cols_wf_frag _ Θ SemCfg.ref env p hf tp htp).1, h2, h4⟩
 
 /-! ## 2. Against the reference semantics -/
 
@@ -84,14 +75,14 @@ the scope of C18 (aggregates used are order free, window orders total, limits do
 order columns at ordered windows – unless all their functions are order free – and at `order_rows` with a limit
 (`SqlScope`; windows without `order_by` and `order_rows` without limit are unrestricted): the query `to_sql` produces (no extend merges) evaluates, the
 reference semantics evaluates, and the two tables have the **same column set and the same multiset of rows**
-(`Table.EquivS`; the column-set half needs the guard `starLeakFree`, see `C08_star_leak_necessary`). -/
+(`Table.EquivS`). -/
 theorem C01_translation_sound_unary (Θ : Interp) (ec : EngineCfg) (env : Env) (cfg : SqlCfg)
     (hm : cfg.merges = false) (p : Ops) (hf : InFrag p = true) (hwf : WF p) (hsq : SqlWF p) (hmp : MapsOK p)
     (he : EnvOK false env p) (hA : AggsOrderFree Θ p) (hW : WindowsTotal Θ SemCfg.ref env p)
-    (hS : SqlScope Θ SemCfg.ref env p) (hg : starLeakFree cfg env p = true)
+    (hS : SqlScope Θ SemCfg.ref env p)
     {q : Near} (h : toNearSql cfg p = .ok q) :
     ∃ T t, semSql Θ ec env q = .ok T ∧ sem Θ SemCfg.ref env p = .ok t ∧ t.cols = p.cols ∧ T.EquivS t := by
-  obtain ⟨T, tp, h1, h2, h3, h4, h5, h6⟩ := C01_translation_engine_order Θ ec env cfg hm p hf hwf hsq hmp he h
+  obtain ⟨T, tp, h1, h2, h3, h4, h6⟩ := C01_translation_engine_order Θ ec env cfg hm p hf hwf hsq hmp he h
   have hB := sem_equiv_semE ec Θ SemCfg.ref env p hA (Or.inl hf) hW hS
   rw [h2] at hB
   cases hs : sem Θ SemCfg.ref env p with
@@ -101,7 +92,7 @@ theorem C01_translation_sound_unary (Θ : Interp) (ec : EngineCfg) (env : Env) (
     have heq : t ≈ tp := hB
     have hc : t.cols = p.cols := heq.1.trans h3
     refine ⟨T, t, h1, rfl, hc, ?_, ?_⟩
-    · intro c; rw [hc]; exact ⟨h5 hg c, h4 c⟩
+    · intro c; rw [hc]; exact h4 c
     · rw [hc, h6]; exact heq.2.symm
 
 /-- the row half of `C01_translation_sound_unary` needs no guard: every declared column is returned and the rows,
@@ -112,7 +103,7 @@ theorem C01_translation_rows (Θ : Interp) (ec : EngineCfg) (env : Env) (cfg : S
     (hS : SqlScope Θ SemCfg.ref env p) {q : Near} (h : toNearSql cfg p = .ok q) :
     ∃ T t, semSql Θ ec env q = .ok T ∧ sem Θ SemCfg.ref env p = .ok t ∧ (∀ c ∈ p.cols, c ∈ T.cols) ∧
       (T.rows.map (fun r => r.select p.cols)).Perm t.rows := by
-  obtain ⟨T, tp, h1, h2, _, h4, _, h6⟩ := C01_translation_engine_order Θ ec env cfg hm p hf hwf hsq hmp he h
+  obtain ⟨T, tp, h1, h2, _, h4, h6⟩ := C01_translation_engine_order Θ ec env cfg hm p hf hwf hsq hmp he h
   have hB := sem_equiv_semE ec Θ SemCfg.ref env p hA (Or.inl hf) hW hS
   rw [h2] at hB
   cases hs : sem Θ SemCfg.ref env p with
@@ -120,20 +111,20 @@ theorem C01_translation_rows (Θ : Interp) (ec : EngineCfg) (env : Env) (cfg : S
   | ok t =>
     rw [hs] at hB
     have heq : t ≈ tp := hB
-    exact ⟨T, t, h1, rfl, h4, by rw [h6]; exact heq.2.symm⟩
+    exact ⟨T, t, h1, rfl, fun c hc => (h4 c).mpr hc, by rw [h6]; exact heq.2.symm⟩
 
 /-- **Strong scope: list equality.**  If at every `order_rows` and every ordered window the order columns are null
 free (`OrdersNullFree`), the SQL result and the reference result have the same rows **in the same order** – for
 every `Θ` (no law on aggregates or window functions is needed), both engines. -/
 theorem C01_translation_exact (Θ : Interp) (ec : EngineCfg) (env : Env) (cfg : SqlCfg)
     (hm : cfg.merges = false) (p : Ops) (hf : InFrag p = true) (hwf : WF p) (hsq : SqlWF p) (hmp : MapsOK p)
-    (he : EnvOK false env p) (hN : OrdersNullFree Θ SemCfg.ref env p) (hg : starLeakFree cfg env p = true)
+    (he : EnvOK false env p) (hN : OrdersNullFree Θ SemCfg.ref env p)
     {q : Near} (h : toNearSql cfg p = .ok q) :
     ∃ T t, semSql Θ ec env q = .ok T ∧ sem Θ SemCfg.ref env p = .ok t ∧ t.cols = p.cols ∧ T.EqS t := by
-  obtain ⟨T, tp, h1, h2, h3, h4, h5, h6⟩ := C01_translation_engine_order Θ ec env cfg hm p hf hwf hsq hmp he h
+  obtain ⟨T, tp, h1, h2, h3, h4, h6⟩ := C01_translation_engine_order Θ ec env cfg hm p hf hwf hsq hmp he h
   rw [semE_eq_sem_of_nullFree ec Θ SemCfg.ref env p hN] at h2
   refine ⟨T, tp, h1, h2, h3, ?_, ?_⟩
-  · intro c; rw [h3]; exact ⟨h5 hg c, h4 c⟩
+  · intro c; rw [h3]; exact h4 c
   · rw [h3]; exact h6
 
 /-- **C01_final_order.**  A pipeline that ends in `order_rows`: if its source is in the multiset scope, and the
@@ -149,7 +140,7 @@ theorem C01_final_order (Θ : Interp) (ec : EngineCfg) (env : Env) (cfg : SqlCfg
     {q : Near} (h : toNearSql cfg (.order src cs rv lim) = .ok q) :
     ∃ T t, semSql Θ ec env q = .ok T ∧ sem Θ SemCfg.ref env (.order src cs rv lim) = .ok t ∧
       T.rows.map (fun r => r.select src.cols) = t.rows := by
-  obtain ⟨T, tp, h1, h2, _, _, _, h6⟩ :=
+  obtain ⟨T, tp, h1, h2, _, _, h6⟩ :=
     C01_translation_engine_order Θ ec env cfg hm (.order src cs rv lim) hf hwf hsq hmp he h
   rw [semE_final_order_eq ec Θ SemCfg.ref env src cs rv lim hA (Or.inl hf) hW hS hts hnull htot] at h2
   exact ⟨T, tp, h1, h2, h6⟩
@@ -160,48 +151,35 @@ by successful builder calls) replaces the structural hypotheses `WF` and `SqlWF`
 theorem C01_translation_sound_reachable (Θ : Interp) (ec : EngineCfg) (env : Env) (cfg : SqlCfg)
     (hm : cfg.merges = false) (p : Ops) (hr : Reachable p) (hf : InFrag p = true) (hmp : MapsOK p)
     (he : EnvOK false env p) (hA : AggsOrderFree Θ p) (hW : WindowsTotal Θ SemCfg.ref env p)
-    (hS : SqlScope Θ SemCfg.ref env p) (hg : starLeakFree cfg env p = true)
+    (hS : SqlScope Θ SemCfg.ref env p)
     {q : Near} (h : toNearSql cfg p = .ok q) :
     ∃ T t, semSql Θ ec env q = .ok T ∧ sem Θ SemCfg.ref env p = .ok t ∧ t.cols = p.cols ∧ T.EquivS t :=
-  C01_translation_sound_unary Θ ec env cfg hm p hf (C26_reachable_wf hr) (C01_reachable_sqlwf hr) hmp he hA hW hS hg h
+  C01_translation_sound_unary Θ ec env cfg hm p hf (C26_reachable_wf hr) (C01_reachable_sqlwf hr) hmp he hA hW hS h
 
 /-! ## 3. Columns (C08) and row counts (C09) of the SQL result -/
 
 /-- **C08_sql_cols.**  The SQL result has exactly the declared column set – for every `Θ`, both engines, no
-hypothesis on the data – provided the query is not a `SELECT *` from a bare table that has more columns than the
-pipeline declares (`starLeakFree`; necessary: `C08_star_leak_necessary`). -/
+hypothesis on the data, and unconditionally for the fragment.
+
+History: before fix 1805022 a final `order_rows` rendered `SELECT *`, and
+`d(a,g).extend({'x':'a.sum()'}, partition_by=['g']).select_columns(['a']).order_rows(['a'])` became
+`SELECT * FROM "d" ORDER BY "a"` returning the undeclared column `g` (the pruned window step asks the table for its
+partition column, `select_columns` only edits the term list of the bare table node); the statement then needed a
+guard (`starLeakFree`) whose necessity was witnessed by that pipeline.  The defect was found by this proof, fixed in
+/repo (`order_to_near_sql` always names its columns) and in the model; the guard is gone. -/
 theorem C08_sql_cols (Θ : Interp) (ec : EngineCfg) (env : Env) (cfg : SqlCfg)
     (hm : cfg.merges = false) (p : Ops) (hf : InFrag p = true) (hwf : WF p) (hsq : SqlWF p) (hmp : MapsOK p)
-    (he : EnvOK false env p) (hg : starLeakFree cfg env p = true) {q : Near} (h : toNearSql cfg p = .ok q) :
+    (he : EnvOK false env p) {q : Near} (h : toNearSql cfg p = .ok q) :
     ∃ T, semSql Θ ec env q = .ok T ∧ ∀ c, c ∈ T.cols ↔ c ∈ p.cols := by
-  obtain ⟨T, _, h1, _, _, h4, h5, _⟩ := C01_translation_engine_order Θ ec env cfg hm p hf hwf hsq hmp he h
-  exact ⟨T, h1, fun c => ⟨h5 hg c, h4 c⟩⟩
-
-/-- without a final `order_rows` the guard is not needed: the query has a SELECT list -/
-theorem C08_sql_cols_no_final_order (Θ : Interp) (ec : EngineCfg) (env : Env) (cfg : SqlCfg)
-    (hm : cfg.merges = false) (p : Ops) (hf : InFrag p = true) (hwf : WF p) (hsq : SqlWF p) (hmp : MapsOK p)
-    (he : EnvOK false env p) (hno : ∀ s cs r l, p ≠ .order s cs r l) {q : Near} (h : toNearSql cfg p = .ok q) :
-    ∃ T, semSql Θ ec env q = .ok T ∧ ∀ c, c ∈ T.cols ↔ c ∈ p.cols := by
-  obtain ⟨st', hrun⟩ := toNearSql_ok h
-  obtain ⟨tp, htp⟩ := semG_ok_frag (sqlRowLe ec) Θ SemCfg.ref env p hf false he
-  have hleak : NoStarLeak env q p.cols := by
-    intro nm agg name ts sc sfx mg dp key t hq _
-    exfalso
-    rw [toNear_none_eq cfg _ p hno hf] at hrun
-    obtain ⟨_, u₁, hu₁, _, hsound⟩ :=
-      transOK_frag Θ ec env SemCfg.ref cfg hm p hf hwf hsq hmp he _ p.cols 0 q st' tp (fun c hc => hc) hrun htp
-    obtain ⟨ks, hk, _, _⟩ := hsound.keys (ne_nil_of_subset hu₁ hwf.cols_ne_nil)
-    subst hq
-    simp [Near.termKeys] at hk
-  obtain ⟨T, h1, h2, h3, _⟩ := stageA_root Θ ec env SemCfg.ref cfg hm p hf hwf hsq hmp he hrun htp
-  exact ⟨T, h1, fun c => ⟨h3 hleak c, h2 c⟩⟩
+  obtain ⟨T, _, h1, _, _, h4, _⟩ := C01_translation_engine_order Θ ec env cfg hm p hf hwf hsq hmp he h
+  exact ⟨T, h1, h4⟩
 
 /-- the SQL result has as many rows as the pipeline's table under the engine's ordering – unconditionally -/
 theorem C09_sql_row_count (Θ : Interp) (ec : EngineCfg) (env : Env) (cfg : SqlCfg)
     (hm : cfg.merges = false) (p : Ops) (hf : InFrag p = true) (hwf : WF p) (hsq : SqlWF p) (hmp : MapsOK p)
     (he : EnvOK false env p) {q : Near} (h : toNearSql cfg p = .ok q) :
     ∃ T tp, semSql Θ ec env q = .ok T ∧ semE ec Θ SemCfg.ref env p = .ok tp ∧ T.rows.length = tp.rows.length := by
-  obtain ⟨T, tp, h1, h2, _, _, _, h6⟩ := C01_translation_engine_order Θ ec env cfg hm p hf hwf hsq hmp he h
+  obtain ⟨T, tp, h1, h2, _, _, h6⟩ := C01_translation_engine_order Θ ec env cfg hm p hf hwf hsq hmp he h
   refine ⟨T, tp, h1, h2, ?_⟩
   have := congrArg List.length h6
   simpa using this
@@ -316,13 +294,12 @@ theorem pA_aggs : AggsOrderFree Θc pA := by
 
 /-- the translation succeeds (three nested queries; the extend step is not emitted) -/
 example : ∃ q, toNearSql cfgN pA = .ok q := ⟨_, rfl⟩
-example : starLeakFree cfgN envD pA = true := by decide
 
 /-- the main theorem applies to `pA`, for SQLite's and for PostgreSQL's NULL placement -/
 example (ec : EngineCfg) {q : Near} (h : toNearSql cfgN pA = .ok q) :
     ∃ T t, semSql Θc ec envD q = .ok T ∧ sem Θc SemCfg.ref envD pA = .ok t ∧ t.cols = pA.cols ∧ T.EquivS t :=
   C01_translation_sound_unary Θc ec envD cfgN rfl pA pA_frag pA_wf pA_sqlwf pA_maps pA_env pA_aggs
-    ⟨trivial, fun h => by cases h⟩ ⟨trivial, fun h => by cases h⟩ (by decide) h
+    ⟨trivial, fun h => by cases h⟩ ⟨trivial, fun h => by cases h⟩ h
 
 /-- and the reference result it is compared with is a real table: two groups -/
 example : ∃ t, sem Θc SemCfg.ref envD pA = .ok t ∧ t.cols = ["g", "n"] ∧ t.rows.length = 2 :=
@@ -340,16 +317,15 @@ theorem pB_wf : WF pB := by
 
 example : ∃ q, toNearSql cfgN pB = .ok q := ⟨_, rfl⟩
 
-/-- the column theorem without guard applies (no final `order_rows`) -/
+/-- the column theorem applies -/
 example (ec : EngineCfg) {q : Near} (h : toNearSql cfgN pB = .ok q) :
     ∃ T, semSql Θc ec envD q = .ok T ∧ ∀ c, c ∈ T.cols ↔ c ∈ pB.cols :=
-  C08_sql_cols_no_final_order Θc ec envD cfgN rfl pB rfl pB_wf (by decide) (by decide)
+  C08_sql_cols Θc ec envD cfgN rfl pB rfl pB_wf (by decide) (by decide)
     (by
       intro nc hnc
       simp only [pB, d, Ops.tables, List.mem_singleton] at hnc
       subst hnc
-      exact ⟨_, rfl, by decide, fun h => by cases h⟩)
-    (fun _ _ _ _ h => by cases h) h
+      exact ⟨_, rfl, by decide, fun h => by cases h⟩) h
 
 /-- `d.project({'n': '_.size()', 'm': 'x.max()'}).extend({'n': '1', 'm': '2'})`: every aggregate is overwritten
 (the situation of fix D14) -/
@@ -399,7 +375,7 @@ example (ec : EngineCfg) {q : Near} (h : toNearSql cfgN pW = .ok q) :
       simp only [List.mem_singleton] at hkv
       subst hkv
       exact C18Ex.size_win_orderFree)⟩
-    ⟨trivial, fun _ t _ => Or.inl (fun _ _ _ hc => by cases hc)⟩ (by decide) h
+    ⟨trivial, fun _ t _ => Or.inl (fun _ _ _ hc => by cases hc)⟩ h
 
 /-- `d.order_rows(['x'], limit=2)` on rows without nulls in `x`, all different: `C01_final_order` applies (list
 equality, for SQLite's and PostgreSQL's NULL placement) -/
@@ -461,7 +437,7 @@ theorem C01_nullorder_necessary_sqlite :
     ∃ q T t, toNearSql cfgN pK = .ok q ∧ TotalOn ["k"] [] [k0, k1] ∧
       semSql C18Ex.Θc EngineCfg.sqlite envK q = .ok T ∧ sem C18Ex.Θc SemCfg.ref envK pK = .ok t ∧
       T.rows.map (fun r => r.select pK.cols) = [k0, k1] ∧ t.rows = [k1, k0] := by
-  obtain ⟨T, tp, h1, h2, _, _, _, h6⟩ := C01_translation_engine_order C18Ex.Θc EngineCfg.sqlite envK cfgN rfl pK rfl
+  obtain ⟨T, tp, h1, h2, _, _, h6⟩ := C01_translation_engine_order C18Ex.Θc EngineCfg.sqlite envK cfgN rfl pK rfl
     (pK_wf []) (by decide) (by decide) (pK_env []) (q := _) rfl
   have e1 : semE EngineCfg.sqlite C18Ex.Θc SemCfg.ref envK pK =
       .ok (semOrderG (sqlRowLe EngineCfg.sqlite) ["k"] [] none ⟨["k"], [k0, k1]⟩) := rfl
@@ -483,7 +459,7 @@ theorem C01_nullorder_necessary_postgres :
     ∃ q T t, toNearSql cfgN pKr = .ok q ∧ TotalOn ["k"] ["k"] [k0, k1] ∧
       semSql C18Ex.Θc EngineCfg.postgres envK q = .ok T ∧ sem C18Ex.Θc SemCfg.ref envK pKr = .ok t ∧
       T.rows.map (fun r => r.select pKr.cols) = [k0, k1] ∧ t.rows = [k1, k0] := by
-  obtain ⟨T, tp, h1, h2, _, _, _, h6⟩ := C01_translation_engine_order C18Ex.Θc EngineCfg.postgres envK cfgN rfl pKr
+  obtain ⟨T, tp, h1, h2, _, _, h6⟩ := C01_translation_engine_order C18Ex.Θc EngineCfg.postgres envK cfgN rfl pKr
     rfl (pK_wf ["k"]) (by decide) (by decide) (pK_env ["k"]) (q := _) rfl
   have e1 : semE EngineCfg.postgres C18Ex.Θc SemCfg.ref envK pKr =
       .ok (semOrderG (sqlRowLe EngineCfg.postgres) ["k"] ["k"] none ⟨["k"], [k0, k1]⟩) := rfl
@@ -497,43 +473,6 @@ theorem C01_nullorder_necessary_postgres :
   refine ⟨_, T, _, rfl, by decide, h1, e2, ?_, ?_⟩
   · rw [h6]; simp only [semOrderG, s1]
   · simp only [semOrder, s2]
-
-namespace C01Ex
-def ag1 : Row := [("a", .num 2), ("g", .num 3)]
-def ag2 : Row := [("a", .num 1), ("g", .num 4)]
-def envL : Env := [("d", ⟨["a", "g"], [ag1, ag2]⟩)]
-/-- `d.extend({'x': 'a.sum()'}, partition_by=['g']).select_columns(['a']).order_rows(['a'])` -/
-def pL : Ops :=
-  .order (.selectCols (.extend (.table "d" ["a", "g"]) [("x", .app "sum" [.col "a"] false true)] ["g"] [] [] true)
-    ["a"]) ["a"] [] none
-/-- the query the library renders for it: `SELECT * FROM "d" ORDER BY "a"` -/
-def qL : Near :=
-  .unary "order_rows_0" none false (.table "d" ["a"]) (some ["a"]) (.orderBy ["a"] [] none) false none
-    (some ("order(" ++ renderOps pL ++ ")"))
-
-theorem pL_wf : WF pL := by
-  refine ⟨⟨⟨by decide, by decide⟩, ?_⟩, by decide, by decide, by decide⟩
-  refine ⟨by decide, by decide, by decide, by decide, by decide, ?_, ?_⟩
-  · intro h; cases h
-  · intro _; decide
-end C01Ex
-
-open C01Ex in
-/-- **C08_star_leak_necessary (new finding).**  The pruned window step asks the table for its partition column,
-`select_columns` only edits the term list of the *table* node, and the final `order_rows` renders `SELECT *`: the
-query returns the column `g` that the pipeline does not declare – although the table has exactly the declared
-columns and the pipeline is well formed.  (The real library does the same: `SELECT * FROM "d" ORDER BY "a"`, result
-columns `a, g`, Pandas `a`.) -/
-theorem C08_star_leak_necessary (Θ : Interp) (ec : EngineCfg) :
-    toNearSql cfgN pL = .ok qL ∧ WF pL ∧ SqlWF pL ∧ MapsOK pL ∧ EnvOK true envL pL ∧ pL.cols = ["a"] ∧
-      starLeakFree cfgN envL pL = false ∧ ∃ T, semSql Θ ec envL qL = .ok T ∧ T.cols = ["a", "g"] := by
-  refine ⟨rfl, pL_wf, by decide, by decide, ?_, rfl, by decide, ?_⟩
-  · intro nc hnc
-    simp only [pL, Ops.tables, List.mem_singleton] at hnc
-    subst hnc
-    exact ⟨_, rfl, by decide, fun _ => by decide⟩
-  · have hsub : semNear Θ ec envL [] (.table "d" ["a"]) (some ["a"]) false = .ok ⟨["a", "g"], [ag1, ag2]⟩ := rfl
-    exact ⟨_, semNear_unary_ok hsub none true, rfl⟩
 
 namespace C01Ex
 def ab1 : Row := [("a", .num 1), ("b", .num 3)]
@@ -552,8 +491,8 @@ result has the undeclared column `x`.  `WF` and `SqlWF` hold; `MapsOK` (a rename
 once) does not, and cannot be dropped.  The real library behaves the same. -/
 theorem C08_rename_twice_necessary (Θ : Interp) (ec : EngineCfg) :
     toNearSql cfgN pR = .ok qR ∧ WF pR ∧ SqlWF pR ∧ ¬ MapsOK pR ∧ EnvOK true envR pR ∧ pR.cols = ["y", "b"] ∧
-      starLeakFree cfgN envR pR = true ∧ ∃ T, semSql Θ ec envR qR = .ok T ∧ T.cols = ["x", "y", "b"] := by
-  refine ⟨rfl, ⟨⟨by decide, by decide⟩, by decide⟩, by decide, by decide, ?_, rfl, by decide, ?_⟩
+      ∃ T, semSql Θ ec envR qR = .ok T ∧ T.cols = ["x", "y", "b"] := by
+  refine ⟨rfl, ⟨⟨by decide, by decide⟩, by decide⟩, by decide, by decide, ?_, rfl, ?_⟩
   · intro nc hnc
     simp only [pR, Ops.tables, List.mem_singleton] at hnc
     subst hnc
